@@ -182,7 +182,7 @@ package db
 //@ func (*db.Database).master
 //@   ghost-entry rb = 31
 //@   ghost-exit rb = old(rb)
-//@   props C08 C12 C05 C01
+//@   props C08 C12 C05 C01 C10
 //@   uses table_tree
 //@   modifies * -M:S_db_KeyCol -M:S_sqlittle_columnIndex hdr_valid hdr_ps hdr_cookie jr_pos peer_state
 //@   requires db != nil
@@ -199,6 +199,7 @@ package db
 
 // the row consumer: counts the delivery itself, never asks to stop
 //@ func (*db.Database).master$1
+//@   props C10 C08 C12 C01 C05
 //@   implements functype db.iterCB
 //@   free-requires db != nil && !searching
 //@   closure-invariant [normalised] MASTER_OK(objects)
